@@ -87,8 +87,8 @@ def observe(o, g, shells, tag="", transform=None):
     o.cmp("angular_momentum_integral" + tag, L, lref, TOL, sl, key="angular_momentum")
     o.cmp("momentum real part == 0" + tag, p.real, np.zeros(p.shape), 0.0, 0.0, key="momentum-real")
     o.cmp("angular momentum real part == 0" + tag, L.real, np.zeros(L.shape), 0.0, 0.0, key="angmom-real")
-    o.cmp("momentum Hermitian" + tag, p, np.conj(np.swapaxes(p, 0, 1)), 1e-12, sp, key="momentum-hermitian")
-    o.cmp("angular momentum Hermitian" + tag, L, np.conj(np.swapaxes(L, 0, 1)), 1e-12, sl, key="angmom-hermitian")
+    o.cmp("momentum Hermitian" + tag, p, np.conj(np.swapaxes(p, 0, 1)), 1e-10, sp, key="momentum-hermitian")
+    o.cmp("angular momentum Hermitian" + tag, L, np.conj(np.swapaxes(L, 0, 1)), 1e-10, sl, key="angmom-hermitian")
 
 
 def evaluate(cfg):
